@@ -83,7 +83,17 @@ impl<'a> G<'a> {
             let n = 1 + self.r.below(3) as usize;
             let xs: Vec<E> = (0..n).map(|_| E::Num(self.r.range(-9, 99))).collect();
             let k = self.r.below(n as u64) as i64;
-            return E::Index(Box::new(E::List(xs)), Box::new(E::Num(k)));
+            // mostly an element the list has; sometimes one it has not: one past the end, a negative one, and
+            // positions a multiple of 2^64 away from a real one (written as sums: a literal holds 64 bits)
+            let two64_plus = |j: i64| E::Add(Box::new(E::Num(i64::MAX)), Box::new(E::Add(Box::new(E::Num(i64::MAX)), Box::new(E::Num(2 + j)))));
+            let ix = match self.r.below(8) {
+                0 => E::Num(n as i64),
+                1 => E::Num(-1 - k),
+                2 => two64_plus(k),
+                3 => E::Neg(Box::new(two64_plus(0))),
+                _ => E::Num(k),
+            };
+            return E::Index(Box::new(E::List(xs)), Box::new(ix));
         }
         self.r.pick(&opts).clone()
     }
